@@ -155,11 +155,49 @@ def main():
                 ctx.violation('shape-program-wrong:%s' % route, '%s %s: unforced run prints %r, definition gives %r' % (pr['name'], lv, o0[-100:], pr['expected'][0]), files); continue
             if o != o0 or (p.rc == 0) != (p0.rc == 0):
                 ctx.violation('result-changed:%s:%s' % (route, cls), '%s %s under %s: output or exit class differs from the unforced run' % (pr['name'], lv, tag), files)
+    # ---------------- interactive sessions: `#int gc' between steps (added after seeded change C09-loop-gc-dangling-stack)
+    # The same session with and without collections requested at step boundaries must print the same marked lines; a deep
+    # recursion (more frames than the interpreter's first stack segment) runs before and after collections.
+    from vf import gen
+    import copy
+    MARK = '@@ '
+    DEEP = 'zqdeep(n: MI, a: MI, b: MI, c: MI, d: MI, e: MI, f: MI, g: MI, h: MI): MI == if n = 0 then a + b + c + d + e + f + g + h else 1 + zqdeep(n - 1, b, c, d, e, f, g, h, a + 1);'
+    def marks(out): return [l[len(MARK):] for l in out.decode(errors='replace').split('\n') if l.startswith(MARK)]
+    sess = []
+    for tag, cnt in (('C09-loop-pool', ctx.q(10, 80)), ('C09-loop-fresh-%d' % ctx.seed, ctx.q(10, 120))):
+        k = 0
+        for sd, g, text, out, cls, d in gen.programs(tag, cnt * 3):
+            if cls == 'ok' and 'exceptions' not in g.feat and k < cnt: sess.append((sd, g)); k += 1
+    lbase = ctx.tmp('loop')
+    def lwork(j):
+        sd, g = sess[j]
+        r = random.Random('%s/%d' % (sd, ctx.seed))
+        g1 = copy.deepcopy(g)
+        for _ in range(2):
+            g1.main.insert(r.randint(0, len(g1.main)), ('rawstmt', 'pM(zqdeep(%d, 1, 2, 3, 4, 5, 6, 7, 8));' % r.choice([450, 500, 700])))
+        g2 = copy.deepcopy(g1)
+        ngc = r.randint(1, 4)
+        for _ in range(ngc): g2.main.insert(r.randint(0, len(g2.main)), ('rawstmt', '#int gc'))
+        t1 = gen.Render(g1, marker=MARK, extra_top=[DEEP]).text(); t2 = gen.Render(g2, marker=MARK, extra_top=[DEEP]).text()
+        dd = os.path.join(lbase, str(j)); os.makedirs(dd)
+        p1 = routes.aldor(b, ['-Gloop'], dd, stdin=t1.encode(), timeout=300)
+        p2 = routes.aldor(b, ['-Gloop'], dd, stdin=t2.encode(), timeout=300)
+        shutil.rmtree(dd, ignore_errors=True)
+        return sd, t2, p1, p2, ngc
+    nloop = 0; ngcs = 0
+    for sd, t2, p1, p2, ngc in pmap(lwork, range(len(sess))):
+        nloop += 1; ngcs += ngc; n += 1
+        files = {'session-with-gc.txt': t2, 'case.txt': '%s\nwithout gc: %s\n%s\nwith gc: %s\n%s' % (sd, p1.cause, p1.out[-1500:].decode(errors='replace'), p2.cause, p2.out[-1500:].decode(errors='replace'))}
+        if p2.timeout and not p1.timeout: ctx.violation('hang:loop:int-gc', sd, files); continue
+        f1 = bool(fault_text(p1)) or bool(p1.sig); f2 = bool(fault_text(p2)) or bool(p2.sig)
+        if f2 and not f1: ctx.violation('storage-fault:loop:int-gc', '%s: the session with #int gc ends in %s %s' % (sd, p2.cause, fault_text(p2)), files); continue
+        if f1: continue
+        if marks(p1.out) != marks(p2.out): ctx.violation('result-changed:loop:int-gc', '%s: marked lines differ (%d vs %d lines)' % (sd, len(marks(p1.out)), len(marks(p2.out))), files)
     ctx.sample({'program': progs[0]['name'], 'schedule': 'ALDOR_VERIF_GC=3:1 (collect at allocations 1,4,7,...)'})
     inconc = None
     if forced < 100: inconc = 'fewer than 100 collections were forced'
     if len(shp) < 4: inconc = 'a heap-shape program did not run: %s' % sorted(shp)
     ctx.finish(n, len(progs), 'one evaluation = one run of an executable / interpreted .ao under one collection schedule compared with its unforced run; distinct = programs',
-               extra={'programs': len(progs), 'runs_per_route': per, 'forced_collections_total': forced, 'natural_runs_that_collected': natural_gcs, 'levels': LEVELS, 'heap_shape_programs': shp}, inconclusive=inconc, min_eval=50)
+               extra={'programs': len(progs), 'runs_per_route': per, 'forced_collections_total': forced, 'natural_runs_that_collected': natural_gcs, 'levels': LEVELS, 'heap_shape_programs': shp, 'interactive_sessions': nloop, 'int_gc_commands': ngcs}, inconclusive=inconc, min_eval=50)
 
 main_guard(main)
